@@ -17,6 +17,7 @@
 # -----------------------------------------------------------------------------
 import asyncio as aio
 import logging
+import struct
 from .. import encoding as enc
 from .. import security as sec
 from .. import types
@@ -65,6 +66,10 @@ class NfdRegister(PrefixRegisterer):
                 logging.getLogger(__name__).error(
                     f'Registration for {enc.Name.to_str(name)} failed: {e.__class__.__name__}')
                 return False
+            except (enc.DecodeError, ValueError, IndexError, TypeError, struct.error):
+                logging.getLogger(__name__).error(
+                    f'Registration for {enc.Name.to_str(name)} failed: malformed response')
+                return False
 
     async def unregister(self, name: enc.NonStrictName) -> bool:
         # Fix the issue that NFD only allows one packet signed by a specific key for a timestamp number
@@ -76,10 +81,12 @@ class NfdRegister(PrefixRegisterer):
                     break
                 await aio.sleep(0.001)
             try:
-                await self.app.express(
+                _, reply, _ = await self.app.express(
                     nfd_mgmt.make_command_v2('rib', 'unregister', self.app.face, name=name),
                     app_param=b'', signer=sec.DigestSha256Signer(for_interest=True),
                     validator=pass_all, lifetime=1000)
-                return True
+                return nfd_mgmt.parse_response(reply)['status_code'] == 200
             except (types.InterestNack, types.InterestTimeout, types.InterestCanceled, types.ValidationFailure):
+                return False
+            except (enc.DecodeError, ValueError, IndexError, TypeError, struct.error):
                 return False
